@@ -341,7 +341,7 @@ def step (cfg : Cfg) (s : State) (op : Op) : State × Out :=
   | .copy => let s := flush K s; (s, .list s.container)
   | .len =>
     let s := flush K s
-    (s, .nat (s.container.length + s.pre.length + s.post.length))
+    (s, .nat s.container.length)
   | .eqList l => let s := flush K s; (s, .bool (decide (s.container = l)))
   | .toNative copy =>
     let s := flush K s
